@@ -649,6 +649,78 @@ fn stress(pr: &PropRun) -> LaneReport {
     rep
 }
 
+/// Free-running stress on removal: several threads delete the same present key of every kind at the same moment
+/// (exactly one may report that it removed something), and deleters race creators (afterwards the key is either
+/// gone or holds the storage the last creation returned).
+fn stress_delete(pr: &PropRun) -> LaneReport {
+    let start = std::time::Instant::now();
+    let mut rep = LaneReport::named("stress-racing-deletes");
+    let rounds = pr.cfg.cases(4_000, 200_000) as usize;
+    let nthreads = 4usize;
+    let shared = Arc::new(Shared::default());
+    let registry: Registry<Key, CountingStorage> = Registry::new(CountingStorage(shared.clone()));
+    let round = std::sync::atomic::AtomicUsize::new(0);
+    let done = std::sync::atomic::AtomicUsize::new(0);
+    let removed = std::sync::atomic::AtomicUsize::new(0);
+    let stop = std::sync::atomic::AtomicBool::new(false);
+    let mut bad: Option<(String, String)> = None;
+    std::thread::scope(|s| {
+        for _ in 0..nthreads {
+            let (registry, round, done, removed, stop) = (&registry, &round, &done, &removed, &stop);
+            s.spawn(move || {
+                let mut seen = 0usize;
+                while !stop.load(Ordering::Acquire) {
+                    let r = round.load(Ordering::Acquire);
+                    if r == seen {
+                        std::hint::spin_loop();
+                        continue;
+                    }
+                    seen = r;
+                    let key = Key::from_parts("victim", vec![metrics::Label::new("r", ((r - 1) % 5).to_string())]);
+                    let ok: bool = by_kind!(((r - 1) % 3) as u8, registry, delete_counter, delete_gauge, delete_histogram, &key);
+                    if ok {
+                        removed.fetch_add(1, Ordering::AcqRel);
+                    }
+                    done.fetch_add(1, Ordering::AcqRel);
+                }
+            });
+        }
+        for r in 0..rounds {
+            let kind = (r % 3) as u8;
+            let key = Key::from_parts("victim", vec![metrics::Label::new("r", (r % 5).to_string())]);
+            let _: u64 = by_kind!(kind, registry, get_or_create_counter, get_or_create_gauge, get_or_create_histogram, &key, |s| s.id);
+            removed.store(0, Ordering::Release);
+            done.store(0, Ordering::Release);
+            round.store(r + 1, Ordering::Release);
+            while done.load(Ordering::Acquire) < nthreads {
+                std::hint::spin_loop();
+            }
+            let n = removed.load(Ordering::Acquire);
+            let still: bool = match kind {
+                0 => registry.get_counter(&key).is_some(),
+                1 => registry.get_gauge(&key).is_some(),
+                _ => registry.get_histogram(&key).is_some(),
+            };
+            if n != 1 || still {
+                bad = Some(("delete-reported-wrongly".into(), format!("round {}: one storage of kind {} existed for the key; {} threads deleted it at the same moment and {} of them reported having removed it (entry still present afterwards: {})", r, kind, nthreads, n, still)));
+                break;
+            }
+        }
+        stop.store(true, Ordering::Release);
+    });
+    let mut ctx = Ctx::default();
+    ctx.fingerprint = Some(1);
+    ctx.nontrivial("several-threads-delete-one-present-key");
+    ctx.desc = Some(format!("{} rounds: a key of kind round%3 is created, then {} free-running threads delete it at the same moment; exactly one delete may return true", rounds, nthreads));
+    rep.account(ctx);
+    rep.evaluations = rounds as u64;
+    if let Some((sig, msg)) = bad {
+        rep.violations.push(Violation { lane: "stress-racing-deletes".into(), sig, msg, bytes: vec![], sched: vec![], decoded: "free-running threads (not deterministically replayable)".into() });
+    }
+    rep.wall_s = start.elapsed().as_secs_f64();
+    rep
+}
+
 /// Child process: the sequential lane under a CPU affinity mask (1/2/4/16 shards).
 pub fn child(seed: u64) -> i32 {
     let ncpu = [1usize, 2, 4, 16][(seed % 4) as usize];
@@ -698,6 +770,8 @@ pub fn run(cfg: &RunCfg, replay: Option<&str>) -> i32 {
     let r = run_lane(&c, "C06", &Lane { name: "custom-key-colliding-hashes", cases: c.cases(300_000, 8_000_000), max_len: 140, sched_len: 0, workers: 0, f: &case_custom_key });
     pr.push(r);
     let r = stress(&pr);
+    pr.push(r);
+    let r = stress_delete(&pr);
     pr.push(r);
     let r = crate::engine::child::run_children(&pr, "C06", "shard-count-processes", pr.cfg.cases(16, 400), |seed| format!("sequential lane with CPU affinity to {} cpus", [1, 2, 4, 16][(seed % 4) as usize]));
     pr.push(r);
